@@ -878,6 +878,68 @@ def simplify_level(max_paths=3):
     return n, bad
 
 
+def junction_comparator_level(step=5):
+    """JunctionComparator.compare_junctions: an isoform with three introns and a read whose middle intron is moved by (dl, dr) at its two
+       sites (grid -80..80), with and without a read truncated to two introns: the events for the mirror image must be the mirrored
+       events (side-specific event types swapped)"""
+    import isoquant
+    import src.isoform_assignment as IA
+    from src.junction_comparator import JunctionComparator
+    from src.long_read_profiles import OverlappingFeaturesProfileConstructor
+    from src.common import equal_ranges
+    from functools import partial
+    from types import SimpleNamespace
+    args = SimpleNamespace(matching_strategy="default", delta=None, resolve_ambiguous="default")
+    isoquant.set_matching_options(args)
+    L = 10001
+    iso_introns = [(2001, 3000), (4001, 5000), (6001, 7000)]
+    iso_region = (1000, 8000)
+    mi = lambda x: (L - x[1], L - x[0])
+    T = IA.MatchEventSubtype
+    swap = {}
+    for t in T:
+        for a, b in (("_left", "_right"), ("_right", "_left")):
+            if t.name.endswith(a) and hasattr(T, t.name[:-len(a)] + b):
+                swap[t] = T[t.name[:-len(a)] + b]
+    for a_, b_ in (("alt_left_site_known", "alt_right_site_known"), ("alt_left_site_novel", "alt_right_site_novel"),
+                   ("extra_intron_flanking_left", "extra_intron_flanking_right"), ("ism_left", "ism_right")):
+        swap[T[a_]] = T[b_]
+        swap[T[b_]] = T[a_]
+
+    def comparator(introns, region):
+        ipc = OverlappingFeaturesProfileConstructor(introns, region, comparator=partial(equal_ranges, delta=args.delta))
+        return JunctionComparator(args, ipc)
+    cmp_base = comparator(iso_introns, iso_region)
+    m_iso = [mi(i) for i in reversed(iso_introns)]
+    cmp_mir = comparator(m_iso, mi(iso_region))
+    bad = []
+    n = 0
+    for dl in range(-80, 81, step):
+        for dr in range(-80, 81, step):
+            for shape in ("full", "two-left", "two-right"):
+                ri = [iso_introns[0], (iso_introns[1][0] + dl, iso_introns[1][1] + dr), iso_introns[2]]
+                rr = iso_region
+                if shape == "two-left":
+                    ri, rr = ri[:2], (1000, 5500)
+                elif shape == "two-right":
+                    ri, rr = ri[1:], (3500, 8000)
+                if ri[0][0] >= ri[0][1] or any(ri[k][1] >= ri[k + 1][0] for k in range(len(ri) - 1)):
+                    continue
+                n += 1
+                try:
+                    a = cmp_base.compare_junctions(ri, rr, iso_introns, iso_region)
+                    b = cmp_mir.compare_junctions([mi(i) for i in reversed(ri)], mi(rr), m_iso, mi(iso_region))
+                except Exception as e:  # noqa
+                    bad.append(((dl, dr, shape), "compare_junctions raised %r" % (e,)))
+                    continue
+                na = sorted(e.event_type.name for e in a)
+                nb = sorted(swap.get(e.event_type, e.event_type).name for e in b)
+                if na != nb:
+                    bad.append(((dl, dr, shape), "read %s with its middle intron moved by (%d, %d): events %s, the mirror image gives the mirrored "
+                                "events %s" % (shape, dl, dr, na, nb)))
+    return n, bad
+
+
 def thread_ends_level():
     """IntronPathProcessor.thread_ends vs thread_starts on mirrored graphs: last intron (100,200) with every subset of terminal vertices
        out of two polyA and two read-end positions, with / without a following intron, every read end on a grid, trusted or not"""
@@ -937,6 +999,10 @@ def run(ctx):
         ctx.violation("l0:tail-clusters-%s" % ("order-dependent" if kind_ == "order" else "not-mirrored"), msg,
                       {"positions": list(case_[0]), "counts": list(case_[1]), "annotated_end": case_[2]})
     ctx.note("L0 tail clusters: %d (positions, counts, annotated end, insertion order) cases through the real cluster_polya_positions" % n_cp)
+    n_jc, bad_jc = junction_comparator_level(10 if quick else 5)
+    for case_, msg in bad_jc[:3]:
+        ctx.violation("l0:junction-events-not-mirrored", msg, {"dl": case_[0], "dr": case_[1], "shape": case_[2]})
+    ctx.note("L0 junction comparison: %d (moved middle intron, read shape) cases through the real compare_junctions, input vs mirror image" % n_jc)
     n_sg, bad_sg = simplify_level(2 if quick else 3)
     for kind_ in ("discarded", "other"):
         sel = [b for b in bad_sg if ("(discarded differ)" in b[1]) == (kind_ == "discarded")]
